@@ -878,6 +878,14 @@ func fdReaddirFn(_ context.Context, mod api.Module, params []uint64) experimenta
 		return experimentalsys.EINVAL
 	}
 
+	// Validate the output regions before reading: a read moves the window of
+	// cached entries, which a call that fails must not do.
+	if _, ok := mem.Read(buf, bufLen); !ok {
+		return experimentalsys.EFAULT
+	} else if _, ok = mem.Read(resultBufused, 4); !ok {
+		return experimentalsys.EFAULT
+	}
+
 	// Get or open a dirent cache for this file descriptor.
 	dir, errno := direntCache(fsc, fd)
 	if errno != 0 {
